@@ -193,6 +193,23 @@ fn print_values(rng: &mut Rng, p: &Profile, ks: &[i64]) -> Vec<String> {
         .collect()
 }
 
+include!(concat!(env!("OUT_DIR"), "/dict.rs"));
+
+/// Tokens of the source dictionary usable as *metadata keys*: `CTE_*` names that the generator does not already
+/// produce with a meaning of their own.
+pub fn dict_meta_keys() -> Vec<&'static str> {
+    SOURCE_DICT
+        .iter()
+        .copied()
+        .filter(|t| t.starts_with("CTE_") && !["CTE_AREAREF", "CTE_KEXP", "CTE_LOCALIZACION", "CTE_RED1", "CTE_RED2"].contains(t))
+        .collect()
+}
+
+/// Tokens usable as *words in the comment of a declared line*: the tool's `CTEEPBD_*` tags.
+pub fn dict_comment_tags() -> Vec<&'static str> {
+    SOURCE_DICT.iter().copied().filter(|t| t.starts_with("CTEEPBD_")).collect()
+}
+
 /// The tool's own automatic comments: files saved with --oc carry them on declared lines.
 pub const TOOL_COMMENTS: [&str; 2] = ["Equilibrado de consumo sin producción declarada", "Reasignación automática de consumos auxiliares"];
 
@@ -585,8 +602,26 @@ pub fn gen_building(rng: &mut Rng, p: &Profile) -> Building {
             let key = if i == 0 && rng.chance(0.5) { base.to_string() } else { format!("{}{}", base, i) };
             b.meta.push((key, gen_text(rng, p.f_hostile_text, p.f_control_chars)));
         }
+        // a key from the dictionary harvested from the source under test (an obsolete or undocumented key the code
+        // may interpret), with a plain numeric value
+        let keys = dict_meta_keys();
+        if !keys.is_empty() && rng.chance(0.08) {
+            let key = rng.pick(&keys[..]).to_string();
+            if !b.meta.iter().any(|(k, _)| *k == key) {
+                b.meta.push((key, rng.pick(&["400", "1.5", "0", "1234.56", "12"]).to_string()));
+            }
+        }
         if rng.chance(0.3) {
             rng.shuffle(&mut b.meta);
+        }
+    }
+    // --- one of the tool's tags (from the same dictionary) in the comment of a declared line
+    let tags = dict_comment_tags();
+    if !tags.is_empty() && !b.lines.is_empty() && rng.chance(0.04) {
+        let i = rng.usize(b.lines.len());
+        let tag = *rng.pick(&tags[..]);
+        if !matches!(b.lines[i].kind, Kind::Need { .. }) && !b.lines[i].comment.contains("CTEEPBD_") {
+            b.lines[i].comment = format!("{} {}", b.lines[i].comment, tag).trim().to_string();
         }
     }
     b
